@@ -114,7 +114,7 @@ theorem skipAttrWs_exact : ∀ (k : Nat) (ws z : Bytes) (c : UInt8) (z' : Bytes)
 /-- the name part of an attribute: white space, then `ns:name` and `=` within the 128-byte look-ahead; the reader goes on
 with the value from the `=` on -/
 theorem readAttribute_name (tag : Tag) (st : St) (ws : Bytes) (n0 : UInt8) (ns : Bytes) (m0 : UInt8) (name R2 : Bytes)
-    (hws : ∀ x ∈ ws, isWs x = true) (h0 : isWs n0 = false) (hns : ∀ x ∈ ns, (x == 58) = false)
+    (hws : ∀ x ∈ ws, isWs x = true) (h0 : isWs n0 = false) (hst : (n0 == 62) = false ∧ (n0 == 47) = false) (hns : ∀ x ∈ ns, (x == 58) = false)
     (hname : ∀ x ∈ name, (x == 61 || isWs x) = false) (hwin : ns.length + name.length + 4 ≤ 128) (hR2 : 1 ≤ R2.length)
     (hrest : st.rest = ws ++ (((n0 :: ns) ++ [58] ++ (m0 :: name)) ++ 61 :: R2)) :
     readAttribute tag st = (readAttrValue tag 8 256 >>= fun x => match x with
@@ -133,6 +133,9 @@ theorem readAttribute_name (tag : Tag) (st : St) (ws : Bytes) (n0 : UInt8) (ns :
     rw [this]; simp
   rw [htake, parseAttrName_exact n0 ns m0 name _ h0 hns hname]
   dsimp only
+  have hn62 : n0 ≠ 62 := by have := hst.1; simpa using this
+  have hn47 : n0 ≠ 47 := by have := hst.2; simpa using this
+  rw [if_neg (by simp [hn62]), if_neg (by simp [hn47])]
   have hdrop : (((n0 :: ns) ++ [58] ++ (m0 :: name)) ++ 61 :: R2 : Bytes).drop (ns.length + name.length + 3) = 61 :: R2 := by
     have : ((n0 :: ns) ++ [58] ++ (m0 :: name) : Bytes).length = ns.length + name.length + 3 := by simp; omega
     rw [← this, List.drop_left]
@@ -155,7 +158,7 @@ look-ahead, value and the two bytes after its closing quote within the first 256
 neither '>' nor '/') is reported as the property `identify ns name` with exactly the value v; the white space, the name,
 `=`, both quotes and v are consumed and nothing else. -/
 theorem readAttribute_exact (tag : Tag) (st : St) (ws : Bytes) (n0 : UInt8) (ns : Bytes) (m0 : UInt8) (name v t'' : Bytes) (q c1 c2 : UInt8)
-    (hws : ∀ x ∈ ws, isWs x = true) (h0 : isWs n0 = false) (hns : ∀ x ∈ ns, (x == 58) = false)
+    (hws : ∀ x ∈ ws, isWs x = true) (h0 : isWs n0 = false) (hst : (n0 == 62) = false ∧ (n0 == 47) = false) (hns : ∀ x ∈ ns, (x == 58) = false)
     (hname : ∀ x ∈ name, (x == 61 || isWs x) = false) (hq : q = 34 ∨ q = 39) (hv : ∀ x ∈ v, (x == q) = false)
     (h62 : c1 ≠ 62) (h47 : c1 ≠ 47) (hwin : ns.length + name.length + 4 ≤ 128) (hvwin : v.length + 5 ≤ 256)
     (hrest : st.rest = ws ++ (((n0 :: ns) ++ [58] ++ (m0 :: name)) ++ ([61, q] ++ v ++ [q, c1, c2] ++ t''))) :
@@ -163,7 +166,7 @@ theorem readAttribute_exact (tag : Tag) (st : St) (ws : Bytes) (n0 : UInt8) (ns 
       { st with rest := [c1, c2] ++ t'' }) := by
   have e : ([61, q] ++ v ++ [q, c1, c2] ++ t'' : Bytes) = 61 :: (q :: (v ++ [q, c1, c2] ++ t'')) := by simp
   rw [e] at hrest
-  rw [readAttribute_name tag st ws n0 ns m0 name _ hws h0 hns hname hwin (by simp) hrest, ← e]
+  rw [readAttribute_name tag st ws n0 ns m0 name _ hws h0 hst hns hname hwin (by simp) hrest, ← e]
   rw [bindOk _ _ _ _ _ (attr_value_exact tag 7 256 _ v _ q c1 c2 hq hv (peek256 st v t'' q c1 c2 hvwin) h62 h47)]
   have hfin : ([61, q] ++ v ++ [q, c1, c2] ++ t'' : Bytes).drop (v.length + 3) = [c1, c2] ++ t'' := by
     have e : ([61, q] ++ v ++ [q, c1, c2] ++ t'' : Bytes) = ([61, q] ++ v ++ [q]) ++ ([c1, c2] ++ t'') := by simp
@@ -213,7 +216,7 @@ theorem attr_value_close (tag : Tag) (f sz : Nat) (st : St) (v t' : Bytes) (q c2
 /-- **The last attribute of a tag**: the same, the closing quote followed by '>', which is consumed; the attribute list
 is over (`a := false`) -/
 theorem readAttribute_last (tag : Tag) (st : St) (ws : Bytes) (n0 : UInt8) (ns : Bytes) (m0 : UInt8) (name v t'' : Bytes) (q c2 : UInt8)
-    (hws : ∀ x ∈ ws, isWs x = true) (h0 : isWs n0 = false) (hns : ∀ x ∈ ns, (x == 58) = false)
+    (hws : ∀ x ∈ ws, isWs x = true) (h0 : isWs n0 = false) (hst : (n0 == 62) = false ∧ (n0 == 47) = false) (hns : ∀ x ∈ ns, (x == 58) = false)
     (hname : ∀ x ∈ name, (x == 61 || isWs x) = false) (hq : q = 34 ∨ q = 39) (hv : ∀ x ∈ v, (x == q) = false)
     (hwin : ns.length + name.length + 4 ≤ 128) (hvwin : v.length + 5 ≤ 256)
     (hrest : st.rest = ws ++ (((n0 :: ns) ++ [58] ++ (m0 :: name)) ++ ([61, q] ++ v ++ [q, 62, c2] ++ t''))) :
@@ -221,7 +224,7 @@ theorem readAttribute_last (tag : Tag) (st : St) (ws : Bytes) (n0 : UInt8) (ns :
       { st with rest := c2 :: t'', a := false }) := by
   have e : ([61, q] ++ v ++ [q, 62, c2] ++ t'' : Bytes) = 61 :: (q :: (v ++ [q, 62, c2] ++ t'')) := by simp
   rw [e] at hrest
-  rw [readAttribute_name tag st ws n0 ns m0 name _ hws h0 hns hname hwin (by simp) hrest, ← e]
+  rw [readAttribute_name tag st ws n0 ns m0 name _ hws h0 hst hns hname hwin (by simp) hrest, ← e]
   rw [bindOk _ _ _ _ _ (attr_value_close tag 7 256 _ v _ q c2 hq hv (peek256 st v t'' q 62 c2 hvwin))]
   have hfin : ([61, q] ++ v ++ [q, 62, c2] ++ t'' : Bytes).drop (v.length + 4) = c2 :: t'' := by
     have e : ([61, q] ++ v ++ [q, 62, c2] ++ t'' : Bytes) = ([61, q] ++ v ++ [q, 62]) ++ (c2 :: t'') := by simp
@@ -243,11 +246,12 @@ structure Attr where
 def Attr.bytes (a : Attr) : Bytes := ((a.n0 :: a.ns) ++ [58] ++ (a.m0 :: a.name)) ++ ([61, a.q] ++ a.v ++ [a.q])
 def Attr.prop (a : Attr) : Prop2 := identify (a.n0 :: a.ns) (a.m0 :: a.name)
 
-/-- what the theorem asks of an attribute: the prefix starts with a non-blank byte and has no further ':', the local name
+/-- what the theorem asks of an attribute: the prefix starts with a non-blank byte other than '>' and '/' (those end the tag) and has no further ':', the local name
 has no '=' or white space after its first byte, the value does not contain its quote character, name and value fit the
 reader's first look-ahead windows -/
 structure Attr.OK (a : Attr) : Prop where
   h0 : isWs a.n0 = false
+  hstart : (a.n0 == 62) = false ∧ (a.n0 == 47) = false
   hns : ∀ x ∈ a.ns, (x == 58) = false
   hname : ∀ x ∈ a.name, (x == 61 || isWs x) = false
   hq : a.q = 34 ∨ a.q = 39
@@ -287,7 +291,7 @@ theorem attrLoop_exact (tag : Tag) (c2 : UInt8) (t : Bytes) : ∀ (l : List (Byt
         -- the last attribute
         have hr : st.rest = ws ++ (((a.n0 :: a.ns) ++ [58] ++ (a.m0 :: a.name)) ++ ([61, a.q] ++ a.v ++ [a.q, 62, c2] ++ t)) := by
           rw [hrest]; simp [ser, Attr.bytes]
-        rw [bindOk _ _ _ _ _ (readAttribute_last tag st ws a.n0 a.ns a.m0 a.name a.v t a.q c2 hpa.1 hpa.2.h0 hpa.2.hns hpa.2.hname hpa.2.hq hpa.2.hv hpa.2.hwin hpa.2.hvwin hr)]
+        rw [bindOk _ _ _ _ _ (readAttribute_last tag st ws a.n0 a.ns a.m0 a.name a.v t a.q c2 hpa.1 hpa.2.h0 hpa.2.hstart hpa.2.hns hpa.2.hname hpa.2.hq hpa.2.hv hpa.2.hwin hpa.2.hvwin hr)]
         dsimp only
         show (emit _ >>= fun _ => attrLoop none f tag) _ = _
         rw [bindOk (emit _) _ _ _ () rfl]
@@ -321,7 +325,7 @@ theorem attrLoop_exact (tag : Tag) (c2 : UInt8) (t : Bytes) : ∀ (l : List (Byt
           rw [this, ht'']; simp
         have hw62 : w ≠ 62 := by intro h; rw [h] at hw; revert hw; decide
         have hw47 : w ≠ 47 := by intro h; rw [h] at hw; revert hw; decide
-        rw [bindOk _ _ _ _ _ (readAttribute_exact tag st ws a.n0 a.ns a.m0 a.name a.v t'' a.q w d2 hpa.1 hpa.2.h0 hpa.2.hns hpa.2.hname hpa.2.hq hpa.2.hv hw62 hw47 hpa.2.hwin hpa.2.hvwin hr)]
+        rw [bindOk _ _ _ _ _ (readAttribute_exact tag st ws a.n0 a.ns a.m0 a.name a.v t'' a.q w d2 hpa.1 hpa.2.h0 hpa.2.hstart hpa.2.hns hpa.2.hname hpa.2.hq hpa.2.hv hw62 hw47 hpa.2.hwin hpa.2.hvwin hr)]
         dsimp only
         show (emit _ >>= fun _ => attrLoop none f tag) _ = _
         rw [bindOk (emit _) _ _ _ () rfl]
